@@ -270,7 +270,9 @@ def check_crc_folder(tools, wd, idx, good_files, bad_files, r):
         r.shuffle(members)
         all_ok = True
         for k, (f, ok) in enumerate(members):
-            name = "%s%02d.e57" % ("abcdefgh"[(k * 3 + perm) % 8], (k * 7 + perm * 5) % 100)
+            # "all E57 files in that directory": scanner software commonly writes the extension in upper case
+            ext = ["e57", "E57", "e57", "E57"][(k + perm) % 4] if (k + perm) % 2 else "e57"
+            name = "%s%02d.%s" % ("abcdefgh"[(k * 3 + perm) % 8], (k * 7 + perm * 5) % 100, ext)
             dst = os.path.join(d, "sub" if k % 3 == 2 else "", name)
             shutil.copy(f, dst)
             all_ok = all_ok and ok
